@@ -393,7 +393,7 @@ def v4_never_policy(ctx):
         else:
             r.ok(f, "MergePolicy::Never ⇒ false", where(b, sws[0][0]), "%d policy test(s)" % len(sws))
     if not found:
-        r.unrec(f, "switch on conf.merge.policy with a Never arm", short_span(b.span), "not found")
+        r.bad(f, "MergePolicy::Never ⇒ false", short_span(b.span), "can_merge has no arm for policy Never: with Never the triggers are evaluated like with Always and a merge can run")
     # merge_on_interval: Never edge returns without reaching can_merge / merge
     fam = ctx.prog.family("storage::bitcask::merge_on_interval")
     found2 = False
